@@ -26,7 +26,10 @@ RULE = ("worlds: for each of the 7 BSP configurations (v19, v20, v21, L4D2 heade
         "wrong-arity value tuples against CPython struct. RLE: all byte strings over {0,1,255} of length <= 7 (8 thorough), zero "
         "runs around 255/510/765, random; decoder also on arbitrary streams with start/max_clusters. index builders: random "
         "call sequences with identity and modular keys. Out-of-range probes: one field per record pushed past its on-disk range, "
-        "names longer than the field, too many overlay faces — an exception or an exact round trip is required.")
+        "names longer than the field, too many overlay faces — an exception or an exact round trip is required; after an exception the value is "
+        "repaired in place and the same object must save correctly. Argument forms: each view's value is also assigned as tuple / generator / "
+        "iter() / map / filter / custom Iterable / custom Sequence / deque; for the forms a writer accepts as coded (table ACCEPTED_FORMS, "
+        "established by experiment) the saved file must be byte-identical to the list form.")
 TRUSTED = [
     "models: lean/Srctools/Model/StructCodec.lean (struct pack/unpack), Model/C11.lean (RLE, find_or_insert/extend closures, texture "
     "table, visibility lump, name dictionary, static-prop record segments); format strings, layout tables, static-prop version "
@@ -1082,6 +1085,97 @@ def _run_probe(tmp, cfg, pv, size, wseed, key, views, fn):
     return 'exact'
 
 
+# =============================================================================== argument forms
+# The writers take "the assigned value"; which Python forms of a sequence they accept was established by experiment on the
+# unchanged tree (6 worlds per cell, all equal to the list form): a writer that only iterates its argument once, and whose view
+# no other writer touches, accepts every iterable incl. one-shot ones; props / detail props also call len(); the table views
+# (planes, texinfo, faces, …) are appended to / enumerated by other writers' find_or_insert closures and need a list.
+# Outside these cells the form is outside the domain (recorded in the evidence, not judged).
+
+def _forms():
+    import collections
+
+    class It:
+        def __init__(self, l): self.l = l
+        def __iter__(self): return iter(self.l)
+
+    class Seq(collections.abc.Sequence):
+        def __init__(self, l): self.l = l
+        def __len__(self): return len(self.l)
+        def __getitem__(self, i): return self.l[i]
+    return {'tuple': tuple, 'generator': lambda l: (x for x in l), 'iter': iter, 'map': lambda l: map(lambda x: x, l),
+            'filter': lambda l: filter(lambda x: True, l), 'Iterable': It, 'Sequence': Seq, 'deque': collections.deque}
+
+
+_ONCE = ['hdr_faces', 'water_leaf_info', 'cubemaps', 'overlays']
+ACCEPTED_FORMS = {v: ['tuple', 'generator', 'iter', 'map', 'filter', 'Iterable', 'Sequence', 'deque'] for v in _ONCE}
+ACCEPTED_FORMS.update({'props': ['tuple', 'Sequence', 'deque'], 'detail_props': ['tuple', 'Sequence', 'deque']})
+
+
+def _run_form(tmp, cfg, pv, wseed, view, form):
+    """Save the same world twice: `view` assigned as a list, and in the given form. Returns None (view empty),
+    'same', ('raises', text) or ('differs', text)."""
+    from srctools.bsp import BSP, StaticPropVersion
+    outs = []
+    for f in (None, form):
+        rng = random.Random(wseed)
+        w = W.gen_world(rng, cfg, size=3, prop_version=pv)
+        val = getattr(w, view)
+        if not isinstance(val, list) or not val:
+            return None
+        bsp = W.open_config(cfg, tmp, 'form')
+        W.assign_world(bsp, w)
+        out = os.path.join(tmp, f'form_{0 if f is None else 1}.bsp')
+        try:
+            if f is not None:
+                setattr(bsp, view, _forms()[f](val))
+            bsp.save(out)
+        except Exception as e:
+            return ('raises', f'{type(e).__name__}: {e}')
+        outs.append(open(out, 'rb').read())
+        if f is not None and outs[0] != outs[1]:
+            D = W.Dumper(cfg, w.prop_version)
+            try:
+                c = BSP(out)
+                c.static_prop_version = StaticPropVersion[w.prop_version]
+                d = W.compare_view(view, D.view(w, view), D.view(c, view))
+                detail = f'{d[0]}: assigned {str(d[1])[:60]} read {str(d[2])[:60]}' if d else 'bytes differ'
+            except Exception as e:
+                detail = f're-read raised {type(e).__name__}: {e}'
+            return ('differs', detail)
+    return 'same'
+
+
+def _search_forms(ctx, tmp):
+    cfgs = [c[0] for c in W.CONFIGS]
+    k = 0
+    for view in W.VIEWS:
+        for form in _forms():
+            accepted = form in ACCEPTED_FORMS.get(view, [])
+            tries = ctx.budget(2, 6) if accepted else 1
+            done = 0
+            for t in range(tries * 4):
+                cfg = cfgs[(k + t) % len(cfgs)]
+                if cfg == 'vitamin' and view in ('hdr_faces', 'orig_faces', 'primitives'):
+                    continue
+                wseed = f'{ctx.seed}:form:{view}:{form}:{t}'
+                r = _run_form(tmp, cfg, 'V10' if cfg != 'chaos' else 'V_CHAOS_V13', wseed, view, form)
+                if r is None:
+                    continue
+                done += 1
+                tag = r if isinstance(r, str) else r[0]
+                ctx.count(f'arg-form:{view}:{form}:' + ('accepted:' if accepted else 'outside-domain:') + tag)
+                if accepted and r != 'same':
+                    ctx.witness(f'arg-form:{view}', f'bsp.{view} assigned as {form} (a form the writer accepts: it only iterates its argument'
+                                f'{" and takes len()" if view in ("props", "detail_props") else " once"}) is not saved like the same value as a list: '
+                                f'{r[0]}: {r[1]} ({cfg})', {'form': form, 'view': view, 'cfg': cfg, 'wseed': wseed,
+                                                              'prop_version': 'V10' if cfg != 'chaos' else 'V_CHAOS_V13'})
+                if done >= tries:
+                    break
+            k += 1
+    ctx.extra['accepted_argument_forms'] = ACCEPTED_FORMS
+
+
 # =============================================================================== class probes
 # Hand-built minimal inputs for value classes just outside the generator's domain (see ASSUMPTIONS):
 # each returns None when the property holds on it (exact round trip or an exception at save time),
@@ -1276,6 +1370,8 @@ def search(ctx):
                 break
         if tried == 0:
             ctx.notes.append(f'probe {key}: no applicable world generated')
+    # 3a. argument forms of the assigned value
+    _search_forms(ctx, tmp)
     # 3b. value classes just outside the generator's domain
     for key, fn in _class_probes():
         try:
@@ -1309,6 +1405,10 @@ def replay(ctx, payload):
     inp = payload.get('input') or {}
     tmp = tempfile.mkdtemp(prefix='c11_replay_')
     try:
+        if 'form' in inp:
+            r = _run_form(tmp, inp['cfg'], inp['prop_version'], inp['wseed'], inp['view'], inp['form'])
+            print('argument form', inp['view'], inp['form'], '->', r)
+            return r in (None, 'same')
         if 'class' in inp:
             fn = dict(_class_probes())[inp['class']]
             r = fn(tmp)
